@@ -101,6 +101,8 @@ class FinishedPdu(AbstractFileDirectiveBase):
     @condition_code.setter
     def condition_code(self, condition_code: ConditionCode):
         self._params.condition_code = condition_code
+        # The condition code decides whether a fault location is packed.
+        self._calculate_directive_field_len()
 
     @property
     def delivery_code(self) -> DeliveryCode:
@@ -170,7 +172,8 @@ class FinishedPdu(AbstractFileDirectiveBase):
 
     def _calculate_directive_field_len(self):
         base_len = 1
-        if self.fault_location is None:
+        if self.fault_location is None or not self.might_have_fault_location:
+            # pack() omits the fault location for these condition codes
             fault_loc_len = 0
         else:
             fault_loc_len = self.fault_location_len
@@ -240,7 +243,6 @@ class FinishedPdu(AbstractFileDirectiveBase):
             delivery_code=DeliveryCode((first_param_byte & 0x04) >> 2),
             file_status=FileStatus(first_param_byte & 0b11),
         )
-        finished_pdu.condition_code = params.condition_code
         finished_pdu._params = params
         current_idx += 1
         # Only the octets of this PDU without the CRC16 trailer hold TLVs.
